@@ -149,6 +149,9 @@ type StubConsensus struct {
 	Last    *types.Block // block of the most recent Update
 	Veto    func(rootNo types.BlockNo) bool
 	CDB     consensus.ChainDB
+	// ReloadVPR (DPoS-like nodes) reloads the in-memory voting power ranking from the state of the given block, as
+	// dpos.Status.Update does when it is called with a block that is not the child of the previous one
+	ReloadVPR func(b *types.Block)
 }
 
 func (s *StubConsensus) IsTransactionValid(tx *types.Tx) bool                     { return true }
@@ -164,6 +167,9 @@ func (s *StubConsensus) Update(block *types.Block) {
 	if s.Last != nil && s.Last.ID() == block.PrevID() {
 		system.CommitParams(true)
 	} else {
+		if s.ReloadVPR != nil {
+			s.ReloadVPR(block)
+		}
 		system.CommitParams(false)
 	}
 	s.Last = block
@@ -324,6 +330,13 @@ func Open(spec *Spec, dir string) (*Node, error) {
 		// after opening the node is a normal connect (parameter changes voted in it are activated, not discarded)
 		if best, err := cs.GetBestBlock(); err == nil {
 			n.CC.Last = best
+		}
+		if spec.VotingReward {
+			n.CC.ReloadVPR = func(b *types.Block) {
+				if err := dpos.InitVPR(cs.SDB().OpenNewStateDB(b.GetHeader().GetBlocksRootHash())); err != nil {
+					panic(err)
+				}
+			}
 		}
 		cs.SetChainConsensus(n.CC)
 	}
